@@ -143,6 +143,19 @@ func (t *Tracer) Count(label string, conn int) int {
 	return n
 }
 
+// Count2 counts the events with this label, connection and request number.
+func (t *Tracer) Count2(label string, conn, req int) int {
+	t.mu.Lock()
+	defer t.mu.Unlock()
+	n := 0
+	for _, e := range t.events {
+		if e.Label == label && e.Conn == conn && e.Req == req {
+			n++
+		}
+	}
+	return n
+}
+
 func (t *Tracer) Snapshot() []Event {
 	t.mu.Lock()
 	defer t.mu.Unlock()
